@@ -176,8 +176,8 @@ pub fn op(cfg: ProgCfg, nkeys: usize, nblobs: usize) -> BoxedStrategy<Op> {
     );
     add(
         m.two_writers,
-        (gen::write_spec(cfg.wmix, nkeys, nblobs), gen::write_spec(cfg.wmix, nkeys, nblobs), any::<bool>(), 0u8..4)
-            .prop_map(|(a, b, b_first, twin)| two_writers(a, b, b_first, twin))
+        (gen::write_spec(cfg.wmix, nkeys, nblobs), gen::write_spec(cfg.wmix, nkeys, nblobs), 0u8..4, 0u8..4)
+            .prop_map(|(a, b, plan, twin)| two_writers(a, b, plan, twin))
             .boxed(),
     );
     proptest::strategy::Union::new_weighted(alts).boxed()
@@ -185,7 +185,7 @@ pub fn op(cfg: ProgCfg, nkeys: usize, nblobs: usize) -> BoxedStrategy<Op> {
 
 /// Two streaming writers open at once. `twin` 0: unrelated specs; 1: the same data and the same
 /// correctly declared integrity under two keys; 2: the same key; 3: same data, same key.
-pub fn two_writers(mut a: WriteSpec, mut b: WriteSpec, b_first: bool, twin: u8) -> Op {
+pub fn two_writers(mut a: WriteSpec, mut b: WriteSpec, plan: u8, twin: u8) -> Op {
     for s in [&mut a, &mut b] {
         s.entry = WEntry::Opts;
         if s.chunks.is_empty() {
@@ -215,7 +215,7 @@ pub fn two_writers(mut a: WriteSpec, mut b: WriteSpec, b_first: bool, twin: u8) 
         }
         _ => {}
     }
-    Op::TwoWriters { a, b, b_first }
+    Op::TwoWriters { a, b, plan }
 }
 
 /// Random programs: pools first, then steps whose selectors are resolved against the pool
